@@ -136,3 +136,12 @@ Print Assumptions c01_flow_semver_reparsed.
 Print Assumptions c01_flow_pep440_reparsed.
 Print Assumptions c01_render_semver_reparsed.
 Print Assumptions c01_render_pep440_reparsed.
+
+(* THE TIE OF THE MODEL'S CONSTANT TABLES TO THE SOURCE: Gen/TablesSrc.v is regenerated from /repo by tools/tables2coq.py on every run *)
+From ZV Require Import Timestamp Render Convert TablesSrc TablesTie.
+Theorem c01_preset_component_tables_as_in_source :
+  standard_core = src_components_standard_core /\ calver_core = src_components_calver_core /\ epoch_extra = src_components_epoch_extra_core /\
+  prerelease_extra = src_components_prerelease_core /\ prerelease_post_extra = src_components_prerelease_post_core /\
+  prerelease_post_dev_extra = src_components_prerelease_post_dev_core /\ build_context = src_components_build_context.
+Proof. exact component_tables_as_source. Qed.
+Print Assumptions c01_preset_component_tables_as_in_source.
